@@ -51,6 +51,10 @@ for q, fi in sorted(m.funcs.items()):
 funcs["__callers__"] = {k: sorted(v) for k, v in sorted(callers.items())
                         if any(q2.rsplit(".", 1)[-1] == k for q2 in funcs
                                if not q2.startswith("__"))}
+from sa import funcrename  # noqa: E402
+funcs["__shapes__"] = {q[len(m.pkg) + 1:]: dict(funcrename.body_shape(fi.node))
+                       for q, fi in sorted(m.funcs.items())
+                       if fi.module not in skip}
 with open(os.path.join(VERIF, "reference", "functions.json"), "w") as fh:
     json.dump(funcs, fh, indent=0, sort_keys=True)
 print(len(funcs), "function names")
